@@ -26,7 +26,7 @@ TRUSTED = ["hand-written closed-form toy potentials (harness/models.py) as the s
 
 
 def _models(tier):
-    out = [dict(), dict(E=0.07, lam=0.12), dict(D=0.15, E=0.08, lam=0.11, a=5.0)]
+    out = [dict(), dict(E=0.07, lam=0.12), dict(D=0.15, E=0.08, lam=0.11, a=5.0), dict(u=3000.0)]
     if tier == "thorough":
         out += [dict(E=0.05, lam=0.09, a=1.0), dict(D=0.2, E=0.1, lam=0.13, T0=1.0, a=10.0), dict(u=37.0), dict(u=0.013, E=0.07)]
     return out
@@ -59,6 +59,8 @@ def search(rep: C.Report, tier: str, broken):
                 # the nucleation temperature is where the tracing starts: the table node there and its neighbourhood
                 Tn_, dT_ = th.Tnucl, info["dT"]
                 Ts += [Tn_, Tn_ + 0.3 * dT_, Tn_ - 0.3 * dT_, Tn_ + 1.7 * dT_, Tn_ - 1.7 * dT_, Tn_ + 6 * dT_, Tn_ - 6 * dT_]
+                # ... and at absolute distances (an integrator that starts with an absolute step puts its first nodes there)
+                Ts += [Tn_ + s_ * d_ for s_ in (1, -1) for d_ in (1e-7, 1e-4, 1.1e-3)]
                 for T in Ts:
                     region = "below" if T < TMin else ("above" if T > TMax else "inside")
                     rep.case(key=(tuple(sorted(params.items())), TnFrac, ph, region, round(T, 3)))
